@@ -127,7 +127,7 @@ type Analysis struct {
 	edges   map[*ssa.Function]map[*ssa.Function]bool
 
 	panicNode *Node
-	cfgNode   *Node // values library code stores into the configuration
+	cfgNode   *Node             // values library code stores into the configuration
 	poolNodes map[*Object]*Node // pool object -> content
 	PoolCtor  map[*ssa.Function]bool
 
